@@ -162,7 +162,10 @@ def generate(st):
         for q in params:
             if 'default' in q and q['name'] in todays and len(todays) > 1 and g.random() < 0.15:
                 del todays[q['name']]          # the caller relies on the parameter's own default today
-        ops.append({'op': 'call', 'inputs': todays, 'expiry': expiry, 'data': data, 'loss': loss, 'also_join': g.random() < 0.3})
+        op_ = {'op': 'call', 'inputs': todays, 'expiry': expiry, 'data': data, 'loss': loss, 'also_join': g.random() < 0.3}
+        if cfg['faulty'] and f.random() < 0.08:
+            op_['raise_at'] = f.choice([1, 1, 2, 3])
+        ops.append(op_)
         # the generator cannot know the join result without the model; approximate prev_keys by all table keys
         prev_keys = cand
     return {'prop': PROP, 'cfg': cfg, 'ops': ops}
@@ -237,7 +240,11 @@ def model_join(on, inputs, defaults):
 # ----------------------------------------------------------------------------------------------
 # execution
 # ----------------------------------------------------------------------------------------------
-def _make_f(params, ledger, dict_output=False):
+class SimFError(Exception):
+    pass
+
+
+def _make_f(params, ledger, dict_output=False, arm=None):
     """a real def with the drawn signature; records every call; the value carries the call number so a kept
     value can be told from a recomputed one"""
     sig = ', '.join(p['name'] if 'default' not in p else '%s=%r' % (p['name'], p['default']) for p in params)
@@ -245,8 +252,9 @@ def _make_f(params, ledger, dict_output=False):
     src = ("def f(%s):\n"
            "    args = {%s}\n"
            "    ledger.append(dict(args))\n"
+           "    if arm and arm[0] == len(ledger): raise SimFError('injected at evaluation %%d' %% len(ledger))\n"
            "    return 'v#%%d:%%s' %% (len(ledger), '|'.join('%%s=%%r' %% (k, args[k]) for k in sorted(args)))\n") % (sig, body)
-    ns = {'ledger': ledger}
+    ns = {'ledger': ledger, 'arm': arm, 'SimFError': SimFError}
     exec(src, ns)
     f = ns['f']
     if not dict_output:
@@ -273,7 +281,8 @@ def execute(trace, ctx=None):
     ledger = []
     dict_mode = bool(cfg.get('dict_output'))
     col = 'data' if dict_mode else cfg.get('col', 'data')      # name of the output column and of the keyword carrying previous output
-    f = _make_f(params, ledger, dict_mode)
+    arm = []               # [n]: the n-th evaluation of f (counted over the whole run) raises
+    f = _make_f(params, ledger, dict_mode, arm)
     kwargs = {'on': list(on)}
     if cfg.get('defaults') is not None:
         kwargs['defaults'] = dict(cfg['defaults'])
@@ -437,6 +446,22 @@ def execute(trace, ctx=None):
                     continue
             # ---- the call
             before = len(ledger)
+            if op.get('raise_at') and has_table and mrows:
+                # fault: f raises at its k-th evaluation within this call.  The statement says nothing about a failing f, so
+                # whatever the call does is accepted; what is checked is that the long-lived object still behaves on later days
+                arm[:] = [before + int(op['raise_at'])]
+                try:
+                    p(**call)
+                except Exception:
+                    pass
+                fired = len(ledger) >= arm[0]
+                arm[:] = []
+                if fired:
+                    res.fault('f_raises_mid_call')
+                    continue
+                # fewer rows were evaluated than raise_at: the call completed normally but its result was discarded; the
+                # evaluations are gone from the ledger's point of view
+                continue
             out = lib(lambda: p(**call), 'perdictable call %s' % sorted(call))
             calls = ledger[before:]
             res.stat('calls')
@@ -609,6 +634,8 @@ def shrink_candidates(trace):
             t = copy.deepcopy(trace); t['ops'][k]['expiry'] = None; yield t
         if op.get('loss'):
             t = copy.deepcopy(trace); t['ops'][k]['loss'] = []; yield t
+        if op.get('raise_at'):
+            t = copy.deepcopy(trace); t['ops'][k].pop('raise_at'); yield t
         for nm, inp in op['inputs'].items():
             if inp['kind'] == 'table':
                 for j in range(len(inp['keys'])):
